@@ -106,7 +106,8 @@ def modelDumpS (s : State) (k : Nat) : Dump where
   erefs := allEdges s
   ni := (nodesOf s).map fun n => IMap.indexOf? s.nodes n
   nf := (List.range (nodesOf s).length).map fun i => s.nodes[i]?.map (·.1)
-  ei := (allEdges s).map fun e => IMap.indexOf? s.edges (e.1, e.2.1)
+  -- `to_index` looks the id up under `edge_key` (either orientation of an undirected edge, D33 repaired)
+  ei := (allEdges s).map fun e => IMap.indexOf? s.edges (edgeKey s.directed e.1 e.2.1)
   ef := (List.range (allEdges s).length).map fun i => s.edges[i]?.map (·.1)
   dir := s.directed
   rnodes := (nodesOf s).reverse
